@@ -444,13 +444,13 @@ type RecordErrors struct {
 }
 
 type PartitionResponseV8 struct {
-	Index           int32        `json:"index"`
-	ErrorCode       int16        `json:"errorCode"`
-	BaseOffset      int64        `json:"baseOffset"`
-	LogAppendTimeMs int64        `json:"logAppendTimeMs"`
-	LogStartOffset  int64        `json:"logStartOffset"`
-	RecordErrors    RecordErrors `json:"recordErrors"`
-	ErrorMessage    string       `json:"errorMessage"`
+	Index           int32          `json:"index"`
+	ErrorCode       int16          `json:"errorCode"`
+	BaseOffset      int64          `json:"baseOffset"`
+	LogAppendTimeMs int64          `json:"logAppendTimeMs"`
+	LogStartOffset  int64          `json:"logStartOffset"`
+	RecordErrors    []RecordErrors `json:"recordErrors"`
+	ErrorMessage    string         `json:"errorMessage"`
 }
 
 type ResponseV8 struct {
